@@ -240,9 +240,10 @@ func Drops(r *rand.Rand, n int, pattern int) *roaring.Bitmap {
 		}
 		return bm
 	case 4: // everything
+		// (individual Adds: the run stays in an array/bitmap container, AddRange would create a run container)
 		bm := roaring.New()
-		if n > 0 {
-			bm.AddRange(0, uint64(n))
+		for i := 0; i < n; i++ {
+			bm.Add(uint32(i))
 		}
 		return bm
 	case 5: // one long run
@@ -250,7 +251,9 @@ func Drops(r *rand.Rand, n int, pattern int) *roaring.Bitmap {
 		if n > 0 {
 			a := r.Intn(n)
 			b := a + 1 + r.Intn(n-a)
-			bm.AddRange(uint64(a), uint64(b))
+			for i := a; i < b; i++ {
+				bm.Add(uint32(i))
+			}
 		}
 		return bm
 	default: // a single document
